@@ -706,7 +706,10 @@ func (e *Engine) feasible(st *State, c *smt.Term) bool {
 		return r != smt.Unsat
 	}
 	e.PruneQueries++
-	if e.sess == nil {
+	if e.sess == nil || e.sess.Dead() {
+		if e.sess != nil {
+			e.sess.Close()
+		}
 		e.sess = smt.NewSession(int(pruneTimeout.Milliseconds()))
 	}
 	r := e.sess.Check([]*smt.Term{q})
